@@ -180,6 +180,14 @@ func runC01Free(t *testing.T, fi int, fc freeCfg) (epochs [][]string) {
 			r.yieldF = syRandomYield(*flagSeed + int64(fi))
 		}
 		r.mu.Unlock()
+		// roundCh[n] is closed when every caller has finished its n-th call (a caller blocked here is durably
+		// blocked, so that the virtual clock can run and end a call that hangs)
+		roundCh := make([]chan struct{}, fc.calls+1)
+		for i := range roundCh {
+			roundCh[i] = make(chan struct{})
+		}
+		close(roundCh[0])
+		var finished atomic.Int64
 		rngs := make([]*rand.Rand, fc.callers)
 		for g := range rngs {
 			rngs[g] = newRand(int64(900000 + 1000*fi + g))
@@ -187,7 +195,6 @@ func runC01Free(t *testing.T, fi int, fc freeCfg) (epochs [][]string) {
 		for e0 := 0; e0 < fc.calls; e0 += epochLen {
 			m := r.hist.mark()
 			var wg sync.WaitGroup
-			var done atomic.Int64
 			for g := 0; g < fc.callers; g++ {
 				wg.Add(1)
 				go func(g int) {
@@ -195,9 +202,7 @@ func runC01Free(t *testing.T, fi int, fc freeCfg) (epochs [][]string) {
 					rng := rngs[g]
 					for n := e0; n < e0+epochLen && n < fc.calls; n++ {
 						if fc.barrier {
-							for round.Load() < int64(n) { // the previous round must be complete
-								runtime.Gosched()
-							}
+							<-roundCh[n] // the previous round must be complete
 						}
 						size := syPickSize(rng)
 						if fc.barrier && size > 4096 {
@@ -206,8 +211,11 @@ func runC01Free(t *testing.T, fi int, fc freeCfg) (epochs [][]string) {
 						ctx, cancel := context.WithTimeout(r.ctx, 10*time.Minute) // virtual time: fires only when everything is blocked
 						r.invoke(ctx, int64(g*fc.calls+n), syBytes(rng, size))
 						cancel()
-						if fc.barrier && done.Add(1)%int64(fc.callers) == 0 {
-							round.Add(1)
+						if fc.barrier {
+							if f := finished.Add(1); f%int64(fc.callers) == 0 {
+								round.Store(f / int64(fc.callers))
+								close(roundCh[f/int64(fc.callers)])
+							}
 						}
 					}
 				}(g)
